@@ -70,6 +70,7 @@ type lifecycle struct {
 	userOps   []string
 	afterOpen func()
 	closeWhileBusy bool
+	openWhileOpen map[string]bool
 }
 
 type recMonitor struct {
@@ -93,6 +94,11 @@ func (m *recMonitor) OnClosedCleanly() {
 func (m *recMonitor) OnClosedUncleanly(cause error) (bool, time.Duration) {
 	m.note()
 	r, w := m.base.OnClosedUncleanly(cause)
+	if r && m.lc.rc.Tape.Intn("env", 2) == 0 {
+		// the peer stays unreachable for the first attempts of this outage
+		m.lc.openFailsLeft = 1 + m.lc.rc.Tape.Intn("env", 4)
+		m.lc.rc.Probe("reopen-attempts-failing")
+	}
 	m.lc.mon = append(m.lc.mon, lcMonEvent{kind: "unclean", step: m.lc.s.Step, at: m.lc.s.Now(), cause: cause, reopen: r, wait: w})
 	if r {
 		m.lc.monBusy = true
@@ -104,6 +110,7 @@ func (m *recMonitor) OnClosedUncleanly(cause error) (bool, time.Duration) {
 
 func (m *recMonitor) OnReopenFailed(prev uint, prevWait time.Duration) (bool, time.Duration) {
 	m.note()
+	delete(m.lc.openWhileOpen, simrt.TaskID())
 	r, w := m.base.OnReopenFailed(prev, prevWait)
 	m.lc.mon = append(m.lc.mon, lcMonEvent{kind: "reopen-failed", step: m.lc.s.Step, at: m.lc.s.Now(), reopen: r, wait: w, prev: prev})
 	if !r {
@@ -116,6 +123,9 @@ func (m *recMonitor) OnReopenFailed(prev uint, prevWait time.Duration) (bool, ti
 func (m *recMonitor) OnReopenSucceeded() {
 	m.note()
 	m.base.OnReopenSucceeded()
+	if m.lc.openWhileOpen[simrt.TaskID()] {
+		m.lc.rc.Violate("C15", "double-open", "adapter", "the monitor's Open() returned nil although the connection was already open (a second read loop now runs on it)")
+	}
 	isOpen := m.lc.tr.IsOpen()
 	exp, det := m.lc.modelOpen()
 	userClosing := false
@@ -298,6 +308,9 @@ func lifecycleHarness(rc *RunCtx) {
 			}
 		}
 	}
+	openWhileOpen := map[string]bool{}
+	lc.openWhileOpen = openWhileOpen
+	st.OnOpenWhileOpen = func() { openWhileOpen[simrt.TaskID()] = true }
 	staleReader := false
 	st.OnStaleRead = func(readerEpoch, ep int) {
 		if !staleReader {
@@ -429,7 +442,11 @@ func lifecycleHarness(rc *RunCtx) {
 				lc.openFailsLeft = 1 + tp.Intn("ops", 3)
 			}
 			r.openFault = lc.openFailsLeft > 0
+			delete(openWhileOpen, "user")
 			r.err = tr.Open()
+			if r.err == nil && openWhileOpen["user"] && !staleReader {
+				rc.Violate("C15", "double-open", "adapter", fmt.Sprintf("op %d: Open() returned nil although the connection was already open (a second read loop now runs on it)", r.idx))
+			}
 			if r.err == nil {
 				afterOpen()
 			}
@@ -637,13 +654,14 @@ func lifecycleHarness(rc *RunCtx) {
 		}
 	}
 	// reopen policy
-	var attempts uint
+	var attempts, failedInCycle uint
 	var lastDecision *lcMonEvent
 	for i := range lc.mon {
 		m := &lc.mon[i]
 		switch m.kind {
 		case "unclean":
 			attempts = 0
+			failedInCycle = 0
 			lastDecision = m
 			if m.reopen != (lc.maxAtt > 0) {
 				rc.Violate("C15", "reopen-decision", "adapter", "OnClosedUncleanly decision does not match MaxReopenAttempts")
@@ -667,6 +685,13 @@ func lifecycleHarness(rc *RunCtx) {
 				}
 			}
 		case "reopen-failed":
+			failedInCycle++
+			if m.prev != failedInCycle {
+				rc.Violate("C15", "reopen-attempt-count-wrong", "adapter", fmt.Sprintf("OnReopenFailed was told %d previous attempts, but %d attempts have failed in this outage", m.prev, failedInCycle))
+			}
+			if !m.reopen && failedInCycle < lc.maxAtt {
+				rc.Violate("C15", "reopen-gave-up-early", "adapter", fmt.Sprintf("the monitor gave up after %d failed attempts in this outage, MaxReopenAttempts=%d", failedInCycle, lc.maxAtt))
+			}
 			lastDecision = m
 		case "reopen-succeeded":
 			if !m.isOpen && m.ok {
